@@ -265,4 +265,15 @@ def c12FromTx (args : List String) (impl : String) : String × String :=
     | _, _ => ("bad-op", "n/a")
   | _ => ("bad-op", "n/a")
 
+/-- `C11.noquote <txdesc> <n|s|d|z>`: a quote that cannot answer (nil, a fee type missing, zero value).  In the model a fee
+    quote always holds both rates, so there is nothing to compute: every fee-dependent operation must report an error,
+    produce no number and leave the transaction as it was. -/
+def c11NoQuote (_args : List String) (impl : String) : String × String :=
+  let model := "paid=err estpaid=err estfees=err change=err changeto=err changeaddr=err fund=err"
+  let pred := if impl.startsWith "panic" then "false:panic"
+    else if impl.contains "+changed" then "false:transaction-changed-without-a-quote"
+    else if impl.contains "=ok" then "false:fee-decision-without-a-quote"
+    else "true"
+  (model, pred)
+
 end GoBT.Driver
